@@ -137,7 +137,9 @@ Section IntervalModel.
 
   Definition inth_root (a b : ival) : ival :=
     let bpt := i_trunc I (lower b) in
-    {| iv := sanitize (b_nth_root B (iv a) bpt);
+    {| iv := (let r := b_nth_root B (iv a) bpt in
+              (if i_isnan I (fst r) && i_eqb I (lower a) (i_ninf I) then i_ninf I else fst r,
+               if i_isnan I (snd r) && i_eqb I (upper a) (i_pinf I) then i_pinf I else snd r));
        nanf := nanf a || nanf b
                || (i_leb I (lower a) (i_zero I) && negb (Z.testbit bpt 0)) |}.   (* !(bPt & 1) *)
 
